@@ -82,6 +82,7 @@ def run(rep: Report, tier: str) -> None:
 	rule_g(rep)
 	rule_h(rep)
 	rule_i(rep)
+	rule_j(rep)
 
 
 def rule_g(rep: Report) -> None:
@@ -622,3 +623,85 @@ def rule_i(rep: Report) -> None:
 	after op_unary (the rule and its FIRST-set computation live in checks/c13.py; the obligation is C11's as much as C13's)"""
 	from checks import c13
 	c13.rule_unary_minus(rep, SourceIndex(), 'C11/unary-minus-covers-every-operand-start')
+
+
+def rule_j(rep: Report) -> None:
+	"""The matcher reads the token list from its end: the token at cursor c is tokens[len(tokens) - 1 - c], so a token is available exactly when
+	d = len(tokens) - c >= 1. Two guards compare the cursor with the length: the loop condition of _match_repeat (must hold whenever a token is
+	available at cursor + steps, or the first tokens of a source can never be taken by a repeat) and the early `no match` of _match_terminal (must hold
+	exactly when no token is available: too narrow wraps to a negative index and reads a token a second time, too wide loses the first token). Both are
+	decided on the linear normal form of the comparison after expanding single-assignment locals and one-line helpers."""
+	import copy
+	from vlib.linear import linear
+	from vlib.match import inline_simple_calls
+	r = rep.rule('C11/cursor-guards-admit-every-token', 'with the token at cursor c being tokens[len(tokens) - 1 - c]: the loop of _match_repeat continues whenever len(tokens) - cursor - steps >= 1, and _match_terminal refuses exactly when len(tokens) - cursor < 1', floor=2)
+	idx = SourceIndex()
+	m = idx.mod(SYNTAX_PY)
+
+	def expand(f, e: ast.AST) -> ast.AST:
+		e = inline_simple_calls(f, e)
+		for _ in range(3):
+			changed = False
+			class T(ast.NodeTransformer):
+				def visit_Name(self, n: ast.Name):
+					nonlocal changed
+					stores = [s for s in ast.walk(f.node) if isinstance(s, ast.Name) and s.id == n.id and isinstance(s.ctx, ast.Store)]
+					defs = [a for a in ast.walk(f.node) if isinstance(a, (ast.Assign, ast.AnnAssign)) and a.value is not None and any(isinstance(t, ast.Name) and t.id == n.id for t in (a.targets if isinstance(a, ast.Assign) else [a.target]))]
+					if len(stores) == 1 and len(defs) == 1 and isinstance(n.ctx, ast.Load):
+						changed = True
+						return inline_simple_calls(f, copy.deepcopy(defs[0].value))
+					return n
+			e = T().visit(copy.deepcopy(e))
+			if not changed:
+				break
+		return e
+
+	def truth(f, test: ast.AST, steps_names: set[str]):
+		"""function d -> bool for a comparison over len(tokens), context.cursor and the step counter; None when not of that form"""
+		test = expand(f, test)
+		if not (isinstance(test, ast.Compare) and len(test.ops) == 1):
+			return None
+		terms, const = linear(ast.BinOp(test.left, ast.Sub(), test.comparators[0]))
+		k = terms.get('len(tokens)', 0)
+		if k not in (1, -1) or terms.get('context.cursor', 0) != -k:
+			return None
+		rest = {a: v for a, v in terms.items() if a not in ('len(tokens)', 'context.cursor')}
+		if any(a not in steps_names or v != -k for a, v in rest.items()) or (steps_names and not rest):
+			return None
+		op = type(test.ops[0])
+		cmpf = {ast.Lt: lambda v: v < 0, ast.LtE: lambda v: v <= 0, ast.Gt: lambda v: v > 0, ast.GtE: lambda v: v >= 0, ast.Eq: lambda v: v == 0, ast.NotEq: lambda v: v != 0}.get(op)
+		if cmpf is None:
+			return None
+		return lambda d: cmpf(k * d + const)
+
+	# --- the repeat loop
+	f = m.func('SyntaxParser._match_repeat')
+	loop = next((n for n in f.node.body if isinstance(n, ast.While)), None) if f else None
+	if f is None or loop is None:
+		r.skip('_match_repeat', (SYNTAX_PY, 1), 'SyntaxParser._match_repeat has no while loop at its top level')
+	else:
+		counters = {unparse(n.target) for n in ast.walk(loop) if isinstance(n, ast.AugAssign) and isinstance(n.op, ast.Add) and not isinstance(n.value, ast.Constant)}
+		if isinstance(loop.test, ast.Constant) and loop.test.value is True:
+			r.ok('_match_repeat:loop', (SYNTAX_PY, loop.lineno), message='unbounded loop, ended by the first failed match')
+		else:
+			conj = loop.test.values if isinstance(loop.test, ast.BoolOp) and isinstance(loop.test.op, ast.And) else [loop.test]
+			fs = [(c, truth(f, c, counters)) for c in conj if 'tokens' in unparse(expand(f, c)) or 'cursor' in unparse(expand(f, c))]
+			if not fs or any(t is None for _, t in fs):
+				r.skip('_match_repeat:loop', (SYNTAX_PY, loop.lineno), f'loop condition `{unparse(loop.test)[:100]}` is not a linear comparison of len(tokens), context.cursor and the step counter {sorted(counters)}')
+			else:
+				bad = [d for d in range(1, 6) if not all(t(d) for _, t in fs)]
+				r.check(not bad, '_match_repeat:loop', (SYNTAX_PY, loop.lineno), f'the repeat loop `while {unparse(loop.test)[:100]}` stops although {bad[0] if bad else "?"} token(s) are still unread at cursor + steps (token index len(tokens) - 1 - cursor - steps = {bad[0] - 1 if bad else "?"}): a `*` / `+` / `?` / `[ ]` part can never take the first token(s) of the source, so e.g. the first statement of a file, or a decorator list at the top, fails to parse or is parsed differently', unparse(expand(f, loop.test))[:200])
+
+	# --- the terminal guard
+	g = m.func('SyntaxParser._match_terminal')
+	guard = next((n for n in g.node.body if isinstance(n, ast.If) and n.body and isinstance(n.body[-1], ast.Return) and 'Step.ng' in unparse(n.body[-1]) and ('tokens' in unparse(expand(g, n.test)) or 'cursor' in unparse(expand(g, n.test)))), None) if g else None
+	if g is None or guard is None:
+		r.skip('_match_terminal', (SYNTAX_PY, 1), 'SyntaxParser._match_terminal has no early `return Step.ng()` guarded by a comparison of the cursor with the token count')
+	else:
+		t = truth(g, guard.test, set())
+		if t is None:
+			r.skip('_match_terminal:guard', (SYNTAX_PY, guard.lineno), f'guard `{unparse(guard.test)[:100]}` is not a linear comparison of len(tokens) and context.cursor')
+		else:
+			lost = [d for d in range(1, 6) if t(d)]
+			wrap = [d for d in range(-4, 1) if not t(d)]
+			r.check(not lost and not wrap, '_match_terminal:guard', (SYNTAX_PY, guard.lineno), (f'the guard `{unparse(guard.test)[:80]}` refuses a match although {lost[0]} token(s) remain (the first token(s) of the source are unreachable)' if lost else f'the guard `{unparse(guard.test)[:80]}` lets cursor = len(tokens) + {-wrap[-1] if wrap else 0} through: the index len(tokens) - 1 - cursor is negative and tokens[...] wraps round to the END of the list, so an already consumed token is matched again'), unparse(expand(g, guard.test))[:200])
